@@ -10,7 +10,14 @@
 // Parent, FlattenedKeys is compared with the model's leaves and
 // diff.CompareConfigs with the leaves before and after the step.
 //
-// Sub-check diff-pairs: pairs of trees given to diff.CompareConfigs.
+// The spelling of positions is a dimension of its own: index segments of
+// dotted names in every integer syntax, trees that spell their structure in
+// dotted keys (hist.FoldKeys), Merge sources other than generic data. Path,
+// PathOf, FlattenedKeys and CompareConfigs answer with names and plain
+// decimal indices however a position was written.
+//
+// Sub-check diff-pairs: pairs of trees given to diff.CompareConfigs, each also
+// in a second spelling with dotted keys.
 //
 // Only the public surface is used (no hooks).
 package c15
@@ -82,7 +89,55 @@ func genCfg() *hist.GenCfg {
 		InitLists: 6,
 		MoveBias:  5,
 		D14Open:   d14Open(),
+		// the spelling of positions: index segments of dotted names in every integer syntax, indices whose
+		// octal / hexadecimal / decimal spellings differ, trees that spell their structure in dotted keys
+		Respell:  3,
+		WideIdx:  1,
+		WideIdxs: []int{8, 10, 9, 16},
+		Dotted:   5,
+		Sources:  2,
 	}
+}
+
+// nonCanonical reports whether a name (split at "." if dotted) has a segment
+// that is a list index but not written as the plain decimal number Path and
+// FlattenedKeys have to answer with.
+func nonCanonical(name string, dotted bool) bool {
+	if name == "" {
+		return false
+	}
+	parts := []string{name}
+	if dotted {
+		parts = strings.Split(name, ".")
+	}
+	for _, p := range parts {
+		if sg := model.ClassifySeg(p); sg.IsIdx && sg.String() != p {
+			return true
+		}
+	}
+	return false
+}
+
+// keySpelling classifies the object keys of a tree: does a key contain the
+// separator, and does such a key have a non-canonical index segment?
+func keySpelling(t *gen.Tree, dotted bool) (dottedKey, nonCanon bool) {
+	if t == nil || !dotted {
+		return false, false
+	}
+	t.Walk(nil, func(_ []string, n *gen.Tree) {
+		if n.K != "obj" {
+			return
+		}
+		for _, k := range n.Keys {
+			if strings.Contains(k, ".") {
+				dottedKey = true
+			}
+			if nonCanonical(k, true) {
+				nonCanon = true
+			}
+		}
+	})
+	return
 }
 
 func genCase(t *rapid.T) Case { return hist.Gen(t, genCfg()) }
@@ -92,10 +147,18 @@ func genCase(t *rapid.T) Case { return hist.Gen(t, genCfg()) }
 
 // checkPositions navigates to every node of the model with Child and compares
 // Path and Parent.
-func checkPositions(st *hist.State) (nodes int, err error) {
+//
+// qsep is the separator the paths are asked for with. One separator is used
+// throughout a history (and only after the last step the other one as well):
+// reads must not disturb each other - an implementation that remembers the
+// last answer per node would be refreshed by every change of the separator.
+func checkPositions(st *hist.State, qsep string, final bool) (nodes int, err error) {
 	root := st.Root
-	if p := root.C.Path("."); p != "" {
+	if p := root.C.Path(qsep); p != "" {
 		return 0, fmt.Errorf("the root says its path is %q", p)
+	}
+	if err := checkPathOf(root.C, nil, qsep, final); err != nil {
+		return 0, err
 	}
 	if root.C.Parent() != nil {
 		return 0, fmt.Errorf("the root has a parent")
@@ -107,7 +170,7 @@ func checkPositions(st *hist.State) (nodes int, err error) {
 		}
 		name, idx := hist.SegAddr(sg)
 		p := append(append([]model.Seg{}, path...), sg)
-		want := model.JoinSegs(p, ".")
+		want := model.JoinSegs(p, qsep)
 		var ch *ucfg.Config
 		cerr := uc.Safe("Child", func() error {
 			var e error
@@ -123,15 +186,18 @@ func checkPositions(st *hist.State) (nodes int, err error) {
 			return fmt.Errorf("navigating to %q: Child(%q,%d) failed: %v", want, name, idx, cerr)
 		}
 		nodes++
-		if got := ch.Path("."); got != want {
-			return fmt.Errorf("the node reached by navigating to %q says its path is %q", want, got)
+		if got := ch.Path(qsep); got != want {
+			return fmt.Errorf("the node reached by navigating to %q says its path is %q (Path(%q))", want, got, qsep)
+		}
+		if err := checkPathOf(ch, p, qsep, final); err != nil {
+			return err
 		}
 		if par := ch.Parent(); par != h {
 			pp := "<nil>"
 			if par != nil {
-				pp = fmt.Sprintf("a node with path %q", par.Path("."))
+				pp = fmt.Sprintf("a node with path %q", par.Path(qsep))
 			}
-			return fmt.Errorf("the node at %q: Parent() is not the node it was reached from (%q) but %s", want, model.JoinSegs(path, "."), pp)
+			return fmt.Errorf("the node at %q: Parent() is not the node it was reached from (%q) but %s", want, model.JoinSegs(path, qsep), pp)
 		}
 		if cm.Kind == "cont" {
 			return walk(ch, cm, p)
@@ -152,6 +218,33 @@ func checkPositions(st *hist.State) (nodes int, err error) {
 		return nil
 	}
 	return nodes, walk(root.C, root.M, nil)
+}
+
+// checkPathOf: PathOf(field, sep) is the path of the node extended by the
+// field; after the last step of a history (final) Path and PathOf are also
+// asked with the other separator, which joins the same names and indices.
+func checkPathOf(c *ucfg.Config, path []model.Seg, qsep string, final bool) error {
+	here := model.JoinSegs(path, qsep)
+	seps := []string{qsep}
+	if final {
+		other := "/"
+		if qsep == "/" {
+			other = "."
+		}
+		if got, want := c.Path(other), model.JoinSegs(path, other); got != want {
+			return fmt.Errorf("the node at %q: Path(%q) = %q, want %q", here, other, got, want)
+		}
+		seps = append(seps, other)
+	}
+	for _, sep := range seps {
+		for _, f := range []string{"x", "2"} {
+			want := model.JoinSegs(append(append([]model.Seg{}, path...), model.NameSeg(f)), sep)
+			if got := c.PathOf(f, sep); got != want {
+				return fmt.Errorf("the node at %q: PathOf(%q, %q) = %q, want %q", here, f, sep, got, want)
+			}
+		}
+	}
+	return nil
 }
 
 func sameKeys(got, want []string) bool {
@@ -321,6 +414,12 @@ func runCase(c Case, r *runlog.R) error {
 	if err != nil {
 		return fmt.Errorf("building a config from the initial model failed: %v", err)
 	}
+	// the separator Path and PathOf are asked with: one per history (see checkPositions)
+	qsep := "."
+	if len(c.Ops)%4 == 3 {
+		qsep = "/"
+	}
+	final := false
 	check := func(label string) error {
 		// frame: the data agree (C12's oracle; here it guards the model)
 		got, err := uc.Dump(st.Root.C)
@@ -330,7 +429,7 @@ func runCase(c Case, r *runlog.R) error {
 		if want := st.Root.M.Reify(); !canon.EqualSplit(got, want) {
 			return fmt.Errorf("the root differs from the model\n got  %s\n want %s", canon.String(canon.Split(canon.Of(got))), canon.String(canon.Split(canon.Of(want))))
 		}
-		if _, err := checkPositions(st); err != nil {
+		if _, err := checkPositions(st, qsep, final); err != nil {
 			return err
 		}
 		leaves := st.Root.M.Leaves(".")
@@ -385,6 +484,16 @@ func runCase(c Case, r *runlog.R) error {
 		default:
 			r.Class("op " + op.Kind)
 			r.ClassIf(op.Kind == hist.Merge, "merge "+op.Policy.String())
+			r.ClassIf(op.Kind == hist.Merge && info.Source != "", "merge source: "+info.Source)
+		}
+		if info.Skipped == "" && !info.Rejected {
+			odd := op.Kind != hist.Merge && nonCanonical(op.Name, c.PathSep)
+			r.ClassIf(odd, "op address with an index segment in another integer syntax")
+			r.ClassIf(odd && info.Wrote && op.Kind != hist.Remove, "write through an index segment in another integer syntax")
+			r.ClassIf(odd && info.Padded, "padding write through an index segment in another integer syntax")
+			dk, nc := keySpelling(op.Val, c.PathSep)
+			r.ClassIf(dk, op.Kind+" of a tree with dotted keys")
+			r.ClassIf(nc, op.Kind+" of a tree whose dotted keys have index segments in another integer syntax")
 		}
 		r.ClassIf(info.Shifted, "removal before the end of a list")
 		r.ClassIf(moved, "step moved existing settings")
@@ -393,11 +502,17 @@ func runCase(c Case, r *runlog.R) error {
 		if moved {
 			nt = true
 		}
+		final = i == len(c.Ops)-1
 		if err := check(fmt.Sprintf("after step %d", i)); err != nil {
 			return fmt.Errorf("after step %d (%s): %v%s", i, op, err, trace(c, i))
 		}
 	}
 	r.NonTrivialIf(nt)
+	if dk, nc := keySpelling(c.Init, c.PathSep); dk {
+		r.Class("initial tree (NewFrom) with dotted keys")
+		r.ClassIf(nc, "initial tree (NewFrom) whose dotted keys have index segments in another integer syntax")
+	}
+	r.Class("paths asked with separator " + qsep)
 	r.ClassIf(c.PathSep, "with PathSep")
 	r.ClassIf(!c.PathSep, "without PathSep")
 	r.ClassIf(isD14Class(c), "D14 class (re-attached child)")
@@ -406,12 +521,12 @@ func runCase(c Case, r *runlog.R) error {
 
 var subHist = runlog.Register(&runlog.Sub[Case]{
 	Name: "positional-histories",
-	Rule: "histories of 3-20 (thorough: 3-36) operations Set*, SetChild(fresh config), Remove, Merge under all five policies (half of the merged trees put a list where the history keeps its lists), Child, and re-attachment of a pooled child with SetChild (after removing it from its old place), on the root and on pooled child handles; addresses from overlapping dictionary-ish and list-ish dotted names plus explicit indices 0..3; operations that would give a node both named keys and list elements are skipped, no references. After every step: every node of the model is navigated to Child by Child; its Path(\".\") must be the navigated path and its Parent() pointer-identical to the handle it was reached from (root: empty path, nil parent); FlattenedKeys equals the sorted model paths of the non-nil primitives; CompareConfigs(state before the step, state) partitions exactly and CompareConfigs(state, equal config built from scratch) reports no change. Non-trivial: some step moved an existing non-nil setting to another path (removal before the end of a list, prepend merge, re-attachment) or an append/prepend merge extended a non-empty list; all positional queries follow it. Distinct: hash of the whole case. While finding D14 is open the generator replaces re-attachments by SetChild of fresh configs (counted in excluded_known).",
+	Rule: "histories of 3-20 (thorough: 3-36) operations Set*, SetChild(fresh config), Remove, Merge under all five policies (half of the merged trees put a list where the history keeps its lists; 2 in 10 merges take their value from mixed Go representations, a fresh *Config kept in the case, the *Config of the root / a child handle / a stand-alone config, or data embedding one), Child, and re-attachment of a pooled child with SetChild (after removing it from its old place), on the root and on pooled child handles; addresses from overlapping dictionary-ish and list-ish dotted names plus explicit indices 0..3 (1 in 10: 8, 9, 10, 16); the spelling of positions is varied: 3 in 10 index segments of a dotted name are written in another integer syntax of strconv base 0 (+1, 02, 0o2, 0x1, 0b1, 0_1, -0, 1_0 ...), an explicit index is sometimes written as the last segment, and with PathSep half of the trees that are merged, attached with SetChild or given to NewFrom (initial tree) spell part of their structure in dotted keys (\"l.02.x\": 1 for l: [nil, nil, {x: 1}]; all children of a container inlined or only some of them next to the plain key; nil padding left to the library; index segments in every integer syntax); operations that would give a node both named keys and list elements are skipped, no references. After every step: every node of the model is navigated to Child by Child; its Path(sep) must be the navigated path - names as written, indices as plain decimal numbers whatever spelling wrote them - and its Parent() pointer-identical to the handle it was reached from (root: empty path, nil parent); PathOf(field, sep) is that path extended by the field; sep is \".\" or (every fourth history) \"/\" for the whole history, after the last step both are asked; FlattenedKeys equals the sorted model paths of the non-nil primitives (decimal indices); CompareConfigs(state before the step, state) partitions exactly and CompareConfigs(state, equal config built from scratch out of plain nested maps and lists) reports no change. Non-trivial: some step moved an existing non-nil setting to another path (removal before the end of a list, prepend merge, re-attachment) or an append/prepend merge extended a non-empty list; all positional queries follow it. Distinct: hash of the whole case. While finding D14 is open the generator replaces re-attachments by SetChild of fresh configs (counted in excluded_known).",
 	Gen:  genCase,
 	Run:  runCase,
 })
 
-func TestPositionalHistories(t *testing.T) { subHist.Check(t, 30000, 2000000) }
+func TestPositionalHistories(t *testing.T) { subHist.Check(t, 26000, 2000000) }
 
 // ---------------------------------------------------------------------------
 // pairs of configurations for diff
@@ -420,6 +535,10 @@ type PairCase struct {
 	A       *gen.Tree `json:"a"`
 	B       *gen.Tree `json:"b"`
 	PathSep bool      `json:"pathsep"`
+	// A2, B2: the same data as A and B with part of the structure spelled in dotted keys ("l.0x1.x": 1), list
+	// indices in any integer syntax (only with PathSep)
+	A2 *gen.Tree `json:"a2,omitempty"`
+	B2 *gen.Tree `json:"b2,omitempty"`
 }
 
 func pairCfg() *gen.TreeCfg {
@@ -482,6 +601,10 @@ func genPair(t *rapid.T) PairCase {
 	} else {
 		pc.B = variant(t, cfg, pc.A, cfg.Depth)
 	}
+	if pc.PathSep {
+		pc.A2 = hist.FoldKeys(t, pc.A, 5, "a2")
+		pc.B2 = hist.FoldKeys(t, pc.B, 5, "b2")
+	}
 	return pc
 }
 
@@ -542,6 +665,47 @@ func runPair(pc PairCase, r *runlog.R) error {
 	if err := checkDiff(a, a, la, la, opts); err != nil {
 		return fmt.Errorf("A -> A itself: %v", err)
 	}
+	if pc.PathSep && pc.A2 != nil && pc.B2 != nil {
+		// the same two configurations written with dotted keys: positions are reported as plain names and
+		// decimal indices however they were spelled
+		for _, x := range []struct {
+			name   string
+			t      *gen.Tree
+			leaves []string
+		}{{"A2", pc.A2, la}, {"B2", pc.B2, lb}} {
+			m, err := model.FromTreeSep(x.t, ".", false)
+			if err != nil || !sameKeys(m.Leaves("."), x.leaves) {
+				return fmt.Errorf("harness: %s does not denote the same settings as its plain spelling (%v)", x.name, err)
+			}
+		}
+		a2, err := mk(pc.A2)
+		if err != nil {
+			return fmt.Errorf("NewFrom(A2): %v", err)
+		}
+		b2, err := mk(pc.B2)
+		if err != nil {
+			return fmt.Errorf("NewFrom(B2): %v", err)
+		}
+		if err := checkFlattened(a2, la, opts); err != nil {
+			return fmt.Errorf("A2 (A spelled with dotted keys): %v", err)
+		}
+		if err := checkFlattened(b2, lb, opts); err != nil {
+			return fmt.Errorf("B2 (B spelled with dotted keys): %v", err)
+		}
+		if err := checkDiff(a, a2, la, la, opts); err != nil {
+			return fmt.Errorf("A -> A2 (the same settings spelled with dotted keys): %v", err)
+		}
+		if err := checkDiff(a2, b2, la, lb, opts); err != nil {
+			return fmt.Errorf("A2 -> B2: %v", err)
+		}
+		if err := checkDiff(b2, a, lb, la, opts); err != nil {
+			return fmt.Errorf("B2 -> A: %v", err)
+		}
+		dka, nca := keySpelling(pc.A2, true)
+		dkb, ncb := keySpelling(pc.B2, true)
+		r.ClassIf(dka || dkb, "a configuration spelled with dotted keys")
+		r.ClassIf(nca || ncb, "dotted keys with index segments in another integer syntax")
+	}
 	sa, sb := set(la), set(lb)
 	common, onlyA, onlyB := 0, 0, 0
 	for k := range sa {
@@ -567,7 +731,7 @@ func runPair(pc PairCase, r *runlog.R) error {
 
 var subPairs = runlog.Register(&runlog.Sub[PairCase]{
 	Name: "diff-pairs",
-	Rule: "pairs (A, B) of random trees without references, every node a dictionary or a list, B an edited copy of A (children dropped, replaced, added; 3 of 4 cases) or independent: FlattenedKeys of each equals the model's non-nil primitive paths; CompareConfigs(A,B) and (B,A) put every path in exactly the right one of Keep/Add/Remove; CompareConfigs(A, equal copy) and (A, A) report no change. Non-trivial: the two key sets share a path and differ in one. Distinct: hash of the case.",
+	Rule: "pairs (A, B) of random trees without references, every node a dictionary or a list, B an edited copy of A (children dropped, replaced, added; 3 of 4 cases) or independent: FlattenedKeys of each equals the model's non-nil primitive paths; CompareConfigs(A,B) and (B,A) put every path in exactly the right one of Keep/Add/Remove; CompareConfigs(A, equal copy) and (A, A) report no change. With PathSep each of A and B is also written a second way (A2, B2: part of the structure spelled in dotted keys, list indices in any integer syntax, nil padding left out): FlattenedKeys(A2) equals the same plain decimal paths, CompareConfigs(A, A2) reports no change, CompareConfigs(A2, B2) and (B2, A) partition like (A, B) and (B, A). Non-trivial: the two key sets share a path and differ in one. Distinct: hash of the case.",
 	Gen:  genPair,
 	Run:  runPair,
 })
